@@ -3,7 +3,7 @@ import os
 import sys
 import z3
 sys.path.insert(0, os.path.dirname(os.path.dirname(os.path.abspath(__file__))))
-from props.common import main, Run, run_child, ALL_SIDECARS  # noqa: E402
+from props.common import main, Run, run_child, ALL_SIDECARS, bounded_companion  # noqa: E402
 from props.analyses import analysis_contracts  # noqa: E402
 from pyvc.state import Obligation  # noqa: E402
 
@@ -55,6 +55,9 @@ def make_replayer(run):
 def build(run: Run):
     eng = run.eng
     run.replayers.append(make_replayer(run))
+    bounded_companion(run, "C19", "total_diff.py", [], what="replay/total_diff.py: (module category x attribute name) imported / called / via STACK_GLOBAL, a PROTO "
+                      "inserted before every opcode of a 35-opcode pickle, findings of mixed kinds at one severity, the corpus: check_safety returns, findings are "
+                      "AnalysisResults, to_dict() is JSON, UnsafeFileError.info equals it")
     install_type_hooks(run)
     keys = analysis_contracts(run, total=True)
     only = os.environ.get("VERIF_ONLY")
